@@ -24,6 +24,7 @@ RULE = ("valid documents of every class x insertion kinds {unknown data element,
         "quick; EVERY position of every aggregate for documents <= 60 nodes in thorough) x 1-4 simultaneous insertions, at ET.Element level and "
         "at text level in XML / unclosed-SGML / independently rendered mixed form. A case = (class, seed, insertion set, level)")
 ASSUMPTIONS = ["an inserted tag is never one the enclosing class declares (nor FROM/FRM/YIELD/YLD, which groom hooks rename)",
+               "inserted names: fixed ones plus undefined names of 1-64 characters; the same tag up to three times in succession; one 1500-deep unknown subtree per document on the tree route (the harness' own renderer is recursive)",
                "modelwalk equality; warnings are recorded, not judged"]
 LEVEL_TEXT = ("Exploration: the skip-unknown-tag logic is a few lines in _convert/groom, but its interaction with the order index, list-member "
               "flag and sub-aggregate recursion depends on WHERE the tag sits; every position of every aggregate of documents of all classes is "
